@@ -1,19 +1,23 @@
 #!/bin/bash
-# tools/process_mutants.sh [-s SLOT] [-w WORKERS] CXX  -- vet every /tmp/wt-CXX/out/mN.* and run all quick checks against it;
-# results in /verif/seeded/CXX-mN/{patch.diff,demo.rs,agent_notes.txt,vet.txt,checks.txt}
+# tools/process_mutants.sh [-s SLOT] [-w WORKERS] CXX [mN] -- vet /tmp/wt-CXX/out/mN.* (once) and run all quick checks
+# against it; results in /verif/seeded/CXX-mN/{patch.diff,demo.rs,agent_notes.txt,vet.txt,checks.txt}
 SLOT=0; W=16
 while getopts "s:w:" o; do case $o in s) SLOT=$OPTARG;; w) W=$OPTARG;; esac; done; shift $((OPTIND-1))
 P="$1"; ONLY="$2"
-for d in /tmp/wt-$P/out/m*.diff; do
+for d in /tmp/wt-$P/out/m*.diff /verif/seeded/$P-m*/patch.diff; do
   [ -f "$d" ] || continue
-  n=$(basename "$d" .diff)
+  case "$d" in /tmp/*) n=$(basename "$d" .diff) ;; *) n=$(basename "$(dirname "$d")" | sed "s/^$P-//") ;; esac
   [ -n "$ONLY" ] && [ "$n" != "$ONLY" ] && continue
-  grep -q "CAUGHT-BY" "/verif/seeded/$P-$n/checks.txt" 2>/dev/null && continue
   S=/verif/seeded/$P-$n
   mkdir -p "$S"
-  cp "$d" "$S/patch.diff"; cp "/tmp/wt-$P/out/${n}_demo.rs" "$S/demo.rs" 2>/dev/null; cp "/tmp/wt-$P/out/$n.txt" "$S/agent_notes.txt" 2>/dev/null
-  MODE=""; if ! grep -q "i_tree::" "$S/demo.rs" 2>/dev/null; then MODE=inline; fi
-  CARGO_TARGET_DIR=/tmp/vet-target-$SLOT /verif/tools/vet_mutant.sh "$S/patch.diff" "$S/demo.rs" $MODE > "$S/vet.txt" 2>&1
+  if [ ! -f "$S/patch.diff" ]; then
+    cp "$d" "$S/patch.diff"; cp "/tmp/wt-$P/out/${n}_demo.rs" "$S/demo.rs" 2>/dev/null; cp "/tmp/wt-$P/out/$n.txt" "$S/agent_notes.txt" 2>/dev/null
+  fi
+  grep -q "CAUGHT-BY" "$S/checks.txt" 2>/dev/null && continue
+  if ! grep -q "demo with change" "$S/vet.txt" 2>/dev/null; then
+    MODE=""; if ! grep -q "i_tree::" "$S/demo.rs" 2>/dev/null; then MODE=inline; fi
+    CARGO_TARGET_DIR=/tmp/vet-target-$SLOT /verif/tools/vet_mutant.sh "$S/patch.diff" "$S/demo.rs" $MODE > "$S/vet.txt" 2>&1
+  fi
   /verif/tools/mutant.sh -s $SLOT -w $W "$S/patch.diff" > "$S/checks.txt" 2>&1
-  echo "$P-$n: $(grep -E 'suite with change' "$S/vet.txt") | $(grep -E 'demo with change' "$S/vet.txt" | cut -c1-80) | $(grep CAUGHT-BY "$S/checks.txt")"
+  echo "$P-$n: $(grep -E 'suite with change' "$S/vet.txt") | $(grep -E 'demo with change' "$S/vet.txt" | cut -c1-60) | $(grep CAUGHT-BY "$S/checks.txt")"
 done
